@@ -205,8 +205,8 @@ Definition whatwg_reset_mode_steps : list (list string * string * string) := [
 Definition whatwg_void_elements : list string :=
   ["area"; "base"; "br"; "col"; "embed"; "hr"; "img"; "input"; "link"; "meta"; "source"; "track"; "wbr"].
 (* 13.3 "serializes as void": a void element, or basefont, bgsound, frame, keygen, param *)
-Definition whatwg_serializes_as_void : list string :=
-  whatwg_void_elements ++ ["basefont"; "bgsound"; "frame"; "keygen"; "param"].
+Definition whatwg_serializes_as_void_only : list string := ["basefont"; "bgsound"; "frame"; "keygen"; "param"].
+Definition whatwg_serializes_as_void : list string := whatwg_void_elements ++ whatwg_serializes_as_void_only.
 (* 13.3: the text of a child of one of these is written literally ... *)
 Definition whatwg_ser_rawtext_parents : list string :=
   ["style"; "script"; "xmp"; "iframe"; "noembed"; "noframes"; "plaintext"].
